@@ -351,7 +351,18 @@ def run(chk, tier):
     f_, outs_ = conv(r'From<.*MplsLabelStackPacket<.*>> for trippy_core::probe::MplsLabelStack>::from$')
     if f_ is not None:
         vals = sorted({vshow(o.value) if o.kind == 'return' else o.kind for o in outs_})
-        if len(vals) == 1 and re.fullmatch(r'MplsLabelStack\(call:Iterator::collect\(call:Iterator::map\(call:Iterator::flat_map\(call:MplsLabelStackPacket::members\(value\), fn:[^,]*MplsLabelStackMemberPacket::<.a>::new_view\), fn:[^,]*MplsLabelStackMember>::from\)\)\)', vals[0]):
+        okm = len(vals) == 1 and re.fullmatch(r'MplsLabelStack\(call:Iterator::collect\(call:Iterator::map\(call:Iterator::flat_map\(call:MplsLabelStackPacket::members\(value\), fn:[^,]*MplsLabelStackMemberPacket::<.a>::new_view\), fn:[^,]*MplsLabelStackMember>::from\)\)\)', vals[0])
+        if not okm and len(vals) == 1 and re.fullmatch(r'MplsLabelStack\(call:Iterator::collect\(call:Iterator::map\(call:Iterator::filter_map\(call:MplsLabelStackPacket::members\(value\), closure:[\w:{}#]+\), fn:[^,]*MplsLabelStackMember>::from\)\)\)', vals[0]):
+            # the same selection as a closure: `.filter_map(|bytes| new_view(bytes).ok())` keeps exactly the members that can be viewed, like flat_map over the Result
+            mcl = [c_ for c_ in prog.fns.values() if c_['kind'] == 'Closure' and c_.get('parent') == f_['path']]
+            if len(mcl) == 1:
+                stm = St()
+                em = Engine(prog, inline_depth=0)
+                mo = sorted({vshow(o.value) if o.kind == 'return' else o.kind for o in em.run(mcl[0], [em.sym_ref(stm, 'env'), ('sym', 'bytes')], stm)})
+                okm = mo == ['ok(call:MplsLabelStackMemberPacket::new_view(bytes))'] or mo == ['call:Result::ok(call:MplsLabelStackMemberPacket::new_view(bytes))']
+                if not okm:
+                    vals = vals + ['closure: %s' % mo]
+        if okm:
             chk.ok('R7', 'mpls-stack:members', 'members().flat_map(new_view).map(from).collect()')
         else:
             chk.fail('R7', 'mpls-stack:members', fn_loc(f_), 'MplsLabelStack::from is %s; expected every member of value.members(), viewed and converted' % [v[:200] for v in vals], key='R7|mpls-stack')
